@@ -192,7 +192,7 @@ def parse_kani(out):
     if mm:
         r["verification_s"] = float(mm.group(1))
     r["stubs"] = sorted(set(s.strip() for s in re.findall(r"- Stub: (.*)", out)))
-    if re.search(r"Status: ERROR|std::bad_alloc|out of memory|Out of memory|memory exhausted", out):
+    if re.search(r"Status: ERROR|std::bad_alloc|out of memory|Out of memory|memory exhausted|run out of memory", out):
         r["oom"] = True
     return r
 
